@@ -665,12 +665,15 @@ func runC02(c *Ctx) {
 		c02Gen{"InlineGen 7 atoms, simulation", "InlineGen", igCfg(7, true, false, igAll), fmt.Sprintf("num=%d", c.Pick(60000, 800000)/4), 30, 30 * time.Minute},
 		c02Gen{"InlineGen 5 atoms without words, simulation", "InlineGen", igCfg(5, true, false, `{"esc","emph","code","link","ref","auto","raw","break"}`), fmt.Sprintf("num=%d", c.Pick(30000, 400000)/4), 30, 30 * time.Minute},
 	)
+	gens = append(gens, c02Gen{fmt.Sprintf("InlineSem every line of up to %d tokens (reference delimiter-run algorithm)", c.Pick(5, 6)), "InlineSem",
+		fmt.Sprintf("CONSTANTS\n  MaxLen = %d\n  MaxRun = 3\n  Emit = TRUE\nINIT Init\nNEXT Next\nINVARIANT Balanced\nCHECK_DEADLOCK FALSE\n", c.Pick(5, 6)), "", 0, 60 * time.Minute})
 	if c.Thorough() {
 		gens = append(gens, c02Gen{"CMGen budget 3, reduced spellings, exhaustive", "CMGen", cmCfg(3, 2, false, false), "", 0, 60 * time.Minute})
 	}
 	for gi, g := range gens {
 		var docs []cmDoc
 		var idocs []igDoc
+		var sems [][2]string
 		seen := map[string]bool{}
 		workers := 8
 		if g.simulate != "" {
@@ -683,6 +686,17 @@ func runC02(c *Ctx) {
 					return
 				}
 				seen[k] = true
+				if g.module == "InlineSem" {
+					var d struct {
+						Src  string `json:"src"`
+						HTML string `json:"html"`
+					}
+					if err := json.Unmarshal(raw, &d); err != nil {
+						infra("bad InlineSem line: %v: %s", err, clip(k, 300))
+					}
+					sems = append(sems, [2]string{d.Src, d.HTML})
+					return
+				}
 				if g.module == "InlineGen" {
 					var d igDoc
 					if err := json.Unmarshal(raw, &d); err != nil {
@@ -703,10 +717,19 @@ func runC02(c *Ctx) {
 			infra("%s: TLC failed (exit %d)\n%s\n%s", g.name, r.Exit, r.ErrorText, r.Tail)
 		}
 		ev.TLC(g.name, r)
-		if len(docs)+len(idocs) == 0 {
+		parallelFor(len(sems), func(i int) {
+			// "x " in front: the line start counts as white space for flanking and nothing can be
+			// taken for a list marker or a thematic break
+			judge(c02Case{Kind: "gen", Source: rawDoc("x " + sems[i][0] + "\n"), Expect: "<p>x " + sems[i][1] + "</p>", Variant: "emphasis/para", From: g.name})
+			if i%4 == 0 {
+				judge(c02Case{Kind: "gen", Source: rawDoc("> x " + sems[i][0] + "\n"), Expect: "<blockquote><p>x " + sems[i][1] + "</p></blockquote>", Variant: "emphasis/quote", From: g.name})
+				judge(c02Case{Kind: "gen", Source: rawDoc("## x " + sems[i][0] + "\n"), Expect: "<h2>x " + sems[i][1] + "</h2>", Variant: "emphasis/atx", From: g.name})
+			}
+		})
+		if len(docs)+len(idocs)+len(sems) == 0 {
 			infra("%s: no documents generated\n%s", g.name, r.Tail)
 		}
-		ev.Add("generated_documents", int64(len(docs)+len(idocs)))
+		ev.Add("generated_documents", int64(len(docs)+len(idocs)+len(sems)))
 		parallelFor(len(idocs), func(i int) {
 			cases := igCases(idocs[i], i, g.name)
 			for k, cs := range cases {
